@@ -194,7 +194,7 @@ static size_t m_canon(uint8_t *buf, size_t cap)
 
 /* =========================================================== tweakable SKINNY schedules */
 
-enum { T_TKEY, T_TWEAK, T_BADTWEAK, T_ENC };
+enum { T_TKEY, T_TWEAK, T_BADTWEAK, T_ENC, T_BADKEY };
 typedef struct { int type, a, b; } TOp;
 static TOp t_ops[5000]; static int t_nops;
 static uint8_t (*T_TW)[16]; static int *T_TWLEN, *T_TWNULL; static int t_ntw;
@@ -242,6 +242,10 @@ static void t_build(void)
     t_ops[t_nops].type = T_BADTWEAK; t_ops[t_nops].a = B + 1; t_ops[t_nops].b = 0; ++t_nops;
     t_ops[t_nops].type = T_BADTWEAK; t_ops[t_nops].a = 0; t_ops[t_nops].b = 1; ++t_nops;         /* NULL pointer with a bad length */
     t_ops[t_nops].type = T_BADTWEAK; t_ops[t_nops].a = B + 1; t_ops[t_nops].b = 1; ++t_nops;
+    /* a re-key that must be refused (too short, too long, the three-block size of the plain API): nothing may change, the remembered tweak included */
+    t_ops[t_nops].type = T_BADKEY; t_ops[t_nops].a = B - 1; ++t_nops;
+    t_ops[t_nops].type = T_BADKEY; t_ops[t_nops].a = 2 * B + 1; ++t_nops;
+    t_ops[t_nops].type = T_BADKEY; t_ops[t_nops].a = 3 * B; ++t_nops;
     if (t_ctr) {
         /* data calls through the CTR object, so that a tweak change meets buffered keystream: after the change the
          * stream must continue with the next counter block under the key and the latest tweak only */
@@ -285,6 +289,7 @@ static int t_enabled(int op)
     /* data-call pattern (CTR kinds): [<= 1 tweak] data [exactly 1 tweak] data - enough for a tweak change to meet
      * buffered keystream of every batch position without multiplying the closure */
     if (t_ops[op].type == T_ENC) return TW.lastop < t_nbase && ((TW.nenc == 0 && TW.ntw <= 1) || (TW.nenc == 1 && TW.nafter == 1));
+    if (t_ops[op].type == T_BADKEY) return TW.nenc == 0 && TW.lastop < t_nbase;
     if (TW.nenc == 2 || (TW.nenc == 1 && TW.nafter >= 1)) return 0;
     if (TW.nenc == 1 && t_ops[op].type == T_TWEAK && t_ops[op].a >= t_nbase) return 0;
     /* thorough BYTE tweaks: from a BYTE-tweak state every base operation is taken, but of the 4080 other
@@ -304,6 +309,7 @@ static void t_opname(int op, char *buf, size_t n)
     case T_TKEY: snprintf(buf, n, "set_tweaked_key(K%d,%d)", o->a, o->b); break;
     case T_TWEAK: snprintf(buf, n, "set_tweak(%s,%d)", T_TWNULL[o->a] ? "NULL" : hexs(T_TW[o->a], (size_t)T_TWLEN[o->a]), T_TWLEN[o->a]); break;
     case T_ENC: snprintf(buf, n, "ctr_encrypt(%d)", o->a); break;
+    case T_BADKEY: snprintf(buf, n, "INVALID set_tweaked_key(size %d)", o->a); break;
     default: snprintf(buf, n, "INVALID set_tweak(%ssize %d)", o->b ? "NULL, " : "", o->a); break;
     }
 }
@@ -344,7 +350,7 @@ static void t_report(const char *cls, int op, const char *fmt, ...)
     const TOp *o = &t_ops[op];
     va_start(ap, fmt); vsnprintf(detail, sizeof(detail), fmt, ap); va_end(ap);
     snprintf(sig, sizeof(sig), "C04/%s%s/%s/%s", cipher_name(t_c), t_ctr ? "-ctr" : "", cls,
-             o->type == T_ENC ? "ctr_encrypt" : o->type == T_TKEY ? "set_tweaked_key" : (o->type == T_TWEAK ? (T_TWNULL[o->a] ? "set_tweak(NULL)" : (T_TWLEN[o->a] < t_bs ? "set_tweak(short)" : "set_tweak")) : "invalid-set_tweak"));
+             o->type == T_ENC ? "ctr_encrypt" : o->type == T_TKEY ? "set_tweaked_key" : (o->type == T_TWEAK ? (T_TWNULL[o->a] ? "set_tweak(NULL)" : (T_TWLEN[o->a] < t_bs ? "set_tweak(short)" : "set_tweak")) : (o->type == T_BADKEY ? "invalid-set_tweaked_key" : "invalid-set_tweak")));
     violation(sig, mc_casedesc(), "%s | history: %s", detail, mc_history_text());
 }
 
@@ -382,7 +388,7 @@ static void t_apply(int op, int check)
     const TOp *o = &t_ops[op];
     int r = 1;
     static uint8_t before[1024]; size_t bl = 0; size_t slen; int rounds;
-    if (check && o->type == T_BADTWEAK) { const void *s = t_sched(&slen, &rounds); memcpy(before, s, slen); bl = slen; }
+    if (check && (o->type == T_BADTWEAK || o->type == T_BADKEY)) { const void *s = t_sched(&slen, &rounds); memcpy(before, s, slen); bl = slen; }
     switch (o->type) {
     case T_TKEY:
         if (t_ctr) r = ctr_set_tweaked_key(t_c, &TW.co, KEYS[o->a], (unsigned)o->b);
@@ -420,6 +426,11 @@ static void t_apply(int op, int check)
         memcpy(TW.tweak, T_TW[o->a], 16);      /* already zero padded; zero for null */
         TW.lastop = o->a; TW.ksoff = t_bs; if (TW.ntw < 2) ++TW.ntw; if (TW.nenc) ++TW.nafter;
         break; }
+    case T_BADKEY:
+        if (t_ctr) r = ctr_set_tweaked_key(t_c, &TW.co, KEYS[1], (unsigned)o->a);
+        else if (t_c == CK_S128) LIB(r = skinny128_set_tweaked_key(&TW.k128, KEYS[1], (unsigned)o->a));
+        else LIB(r = skinny64_set_tweaked_key(&TW.k64, KEYS[1], (unsigned)o->a));
+        break;
     default: {
         const void *bp = o->b ? NULL : T_TW[2];
         if (t_ctr) r = ctr_set_tweak(t_c, &TW.co, bp, (unsigned)o->a);
@@ -428,9 +439,9 @@ static void t_apply(int op, int check)
         break; }
     }
     if (!check) return;
-    if (o->type == T_BADTWEAK) {
+    if (o->type == T_BADTWEAK || o->type == T_BADKEY) {
         const void *s = t_sched(&slen, &rounds);
-        if (r != 0) t_report("return-value", op, "invalid tweak size accepted (returned %d)", r);
+        if (r != 0) t_report("return-value", op, "invalid %s size accepted (returned %d)", o->type == T_BADKEY ? "key" : "tweak", r);
         if (slen != bl || memcmp(before, s, slen) != 0) t_report("rejected-call-changed-schedule", op, "schedule changed by a rejected call");
         return;
     }
